@@ -413,7 +413,7 @@ func (p *parser) primary() Expr {
 	case "str":
 		return &EStr{t.v}
 	case "ident":
-		if t.v == "forall" || t.v == "exists" {
+		if (t.v == "forall" || t.v == "exists") && p.peek().k == "ident" { // otherwise an ordinary identifier named exists/forall
 			v := p.next()
 			if v.k != "ident" {
 				panic(fmt.Errorf("spec parse: quantifier variable expected in %q", p.src))
